@@ -66,7 +66,7 @@ def gen_envelope(rng, big):
             nxseg = int(rng.choice([1024, 1025, 1536, 2000, 2048, 3000, 4000, 4096, 6000, 8000, 8192]))
         else:
             nxseg = int(rng.choice([1024, 1536, 2000, 2048, 2600, 4000, 4096]))
-        fs = float(rng.choice([1.0, 12.5, 50.0, 100.0, 256.0, 1000.0, 4096.0]))
+        fs = float(rng.choice([0.05, 0.2, 1.0, 12.5, 50.0, 100.0, 256.0, 1000.0, 4096.0, 5000.0, 1e5]))
         fn_r = float(rng.uniform(0.04, 0.25))
         xi = float(rng.uniform(0.02, 0.05))
         if 2 * xi * fn_r * nxseg >= 4.02 and fn_r * nxseg / 2 >= 30.2:
@@ -79,7 +79,7 @@ def gen_envelope(rng, big):
     return dict(kind="envelope", fs=fs, nxseg=nxseg, fn=fn, xi=xi, phi=phi.tolist(),
                 eps_rel=float(10.0 ** rng.uniform(-12, -7)), gain=float(10.0 ** rng.uniform(-8, 8)),
                 DF2=float(bw * rng.choice([4.0, 4.5, 6.0, 10.0, 20.0, 40.0])), DF1=float(bw * rng.choice([0.5, 1.0, 2.0])),
-                sel=float(fn + bw * rng.uniform(-0.45, 0.45)),
+                sel=float(fn + bw * rng.uniform(-0.45, 0.45)), layout=str(rng.choice(LAYOUTS)),
                 c=float(rng.choice([2.0 ** int(rng.integers(-40, 41)), 10.0 ** rng.uniform(-12, 12), 3.0, 1e-3, 7e5])))
 
 
@@ -108,8 +108,76 @@ def corner_points(thorough):
                 out.append(dict(kind="envelope-corner", end=end, fs=fs, nxseg=nxseg, fn=fn, xi=xi, phi=shapes[(i + e) % 6],
                                 eps_rel=(1e-10, 1e-8, 1e-12)[(i + j + e) % 3], gain=(1.0, 1e-6, 1e5)[(i + e) % 3],
                                 DF2=bw * (4.0, 10.0, 6.0)[(i + j + e) % 3], DF1=bw, sel=fn + bw * (0.3, -0.4, 0.1)[(i + e) % 3],
-                                c=(1000.0, 2.0 ** -20, 3.0)[(j + e) % 3], scale_test=bool(thorough or (i + j + e) % 4 == 0)))
+                                c=(1000.0, 2.0 ** -20, 3.0)[(j + e) % 3], scale_test=bool(thorough or (i + j + e) % 4 == 0),
+                                layout=LAYOUTS[(i + 2 * j + e) % 3]))
     return out
+
+
+LAYOUTS = ("C", "F", "view")
+
+
+def lay_out(Sy, layout):
+    """The same spectral matrix in another memory layout: row-major, column-major (np.asfortranarray, loadmat data,
+    np.array(list_of_line_matrices).T) or a non-contiguous view of a larger buffer."""
+    if layout == "F":
+        return np.asfortranarray(Sy)
+    if layout == "view":
+        big = np.zeros((Sy.shape[0] + 1, Sy.shape[1], 2 * Sy.shape[2] + 1), Sy.dtype)
+        v = big[1:, :, 1::2]
+        v[...] = Sy
+        assert not v.flags["C_CONTIGUOUS"] and not v.flags["F_CONTIGUOUS"]
+        return v
+    return np.ascontiguousarray(Sy)
+
+
+class Frozen:
+    """Input-immutability clause: the arrays handed to the implementation are bit-equal after the call."""
+
+    def __init__(self, **arrs):
+        self.arrs = arrs
+        self.snap = {k: (np.array(v, copy=True), np.asarray(v).tobytes()) for k, v in arrs.items()}
+
+    def changed(self):
+        return [k for k, v in self.arrs.items() if np.asarray(v).tobytes() != self.snap[k][1] or np.shape(v) != self.snap[k][0].shape]
+
+    def restore(self):
+        for k, v in self.arrs.items():
+            if isinstance(v, np.ndarray):
+                v[...] = self.snap[k][0]
+
+
+def analyse(ctx, case, Sy, f, spec, method, judge=True):
+    """One call of fdd.EFDD_mpe on (Sy, f) judged against the truth of spec (the property text).  None = failed call."""
+    fs, fn, xi = spec["fs"], spec["fn"], spec["xi"]
+    phi = np.array(spec["phi"], float)
+    sel = [spec["sel"]]
+    fr = Frozen(Sy=Sy, freq=f, sel_freq=np.array(sel))
+    try:
+        Fn, Xi, Phi, _ = fdd.EFDD_mpe(Sy, f, 1.0 / fs, sel, "per", method=method, DF1=spec["DF1"], DF2=spec["DF2"])
+    except Exception as e:  # noqa: BLE001
+        Fn = e
+    ch = fr.changed() + ([] if sel == [spec["sel"]] else ["sel_freq"])
+    if ch:
+        ctx.fail("oracle", "fdd.EFDD_mpe(%s) modifies its input %s (memory layout %s)" % (method, "/".join(ch), case.get("layout", "C")), case,
+                 key="C07:%s:mutates-input" % method)
+        fr.restore()
+    if isinstance(Fn, Exception):
+        ctx.fail("oracle", "%s raised %s inside the property's envelope" % (method, type(Fn).__name__), case, key="C07:%s:raises" % method)
+        return None
+    Fn, Xi = float(np.ravel(Fn)[0]), float(np.ravel(Xi)[0])
+    if not judge:
+        return Fn, Xi, Phi
+    m = mac(Phi[:, 0], phi)
+    efn, exi = abs(Fn - fn) / fn, abs(Xi - xi) / xi
+    ctx.extra["worst_fn_err"] = max(ctx.extra.get("worst_fn_err", 0.0), efn if np.isfinite(efn) else 9.9)
+    ctx.extra["worst_xi_err"] = max(ctx.extra.get("worst_xi_err", 0.0), exi if np.isfinite(exi) else 9.9)
+    if not (m >= 0.999):
+        ctx.fail("oracle", "%s: MAC(Phi, true shape) = %.6f < 0.999" % (method, m), case, key="C07:%s:mac" % method)
+    if not (efn <= 0.025):
+        ctx.fail("oracle", "%s: natural frequency %.6g vs true %.6g (error %.2f %% > 2.5 %%)" % (method, Fn, fn, 100 * efn), case, key="C07:%s:fn" % method)
+    if not (exi <= 0.15):
+        ctx.fail("oracle", "%s: damping ratio %.5g vs true %.5g (error %.1f %% > 15 %%)" % (method, Xi, xi, 100 * exi), case, key="C07:%s:xi" % method)
+    return Fn, Xi, Phi
 
 
 def oracle_case(ctx, spec, methods=("EFDD", "FSDD")):
@@ -118,40 +186,86 @@ def oracle_case(ctx, spec, methods=("EFDD", "FSDD")):
     phi = np.array(spec["phi"], float)
     assert in_envelope(fs, nxseg, fn, xi, spec["DF2"]), spec
     f, Sy, _, _ = build_sy(fs, nxseg, fn, xi, phi, spec["eps_rel"], spec["gain"])
-    dt = 1.0 / fs
+    layout = spec.get("layout", "C")
+    Sy = lay_out(Sy, layout)
     for method in methods:
         case = dict(spec, method=method)
         ctx.count(case, nontrivial=True)
         ctx.hist("oracle nxseg", nxseg)
-        try:
-            Fn, Xi, Phi, _ = fdd.EFDD_mpe(Sy, f, dt, [spec["sel"]], "per", method=method, DF1=spec["DF1"], DF2=spec["DF2"])
-        except Exception as e:  # noqa: BLE001
-            ctx.fail("oracle", "%s raised %s inside the property's envelope" % (method, type(e).__name__), case, key="C07:%s:raises" % method)
+        ctx.hist("oracle layout", layout)
+        ctx.hist("oracle log10 fs", int(np.floor(np.log10(fs))))
+        r = analyse(ctx, case, Sy, f, spec, method)
+        if r is None or not spec.get("scale_test", True):
             continue
-        Fn, Xi = float(np.ravel(Fn)[0]), float(np.ravel(Xi)[0])
-        m = mac(Phi[:, 0], phi)
-        efn, exi = abs(Fn - fn) / fn, abs(Xi - xi) / xi
-        ctx.extra["worst_fn_err"] = max(ctx.extra.get("worst_fn_err", 0.0), efn if np.isfinite(efn) else 9.9)
-        ctx.extra["worst_xi_err"] = max(ctx.extra.get("worst_xi_err", 0.0), exi if np.isfinite(exi) else 9.9)
-        if not (m >= 0.999):
-            ctx.fail("oracle", "%s: MAC(Phi, true shape) = %.6f < 0.999" % (method, m), case, key="C07:%s:mac" % method)
-        if not (efn <= 0.025):
-            ctx.fail("oracle", "%s: natural frequency %.6g vs true %.6g (error %.2f %% > 2.5 %%)" % (method, Fn, fn, 100 * efn), case, key="C07:%s:fn" % method)
-        if not (exi <= 0.15):
-            ctx.fail("oracle", "%s: damping ratio %.5g vs true %.5g (error %.1f %% > 15 %%)" % (method, Xi, xi, 100 * exi), case, key="C07:%s:xi" % method)
-        # positive scaling of the whole spectral matrix
-        if not spec.get("scale_test", True):
-            continue
+        Fn, Xi, Phi = r
+        # positive scaling of the whole spectral matrix (same memory layout)
         c = spec["c"]
-        try:
-            Fn2, Xi2, Phi2, _ = fdd.EFDD_mpe(c * Sy, f, dt, [spec["sel"]], "per", method=method, DF1=spec["DF1"], DF2=spec["DF2"])
-            Fn2, Xi2 = float(np.ravel(Fn2)[0]), float(np.ravel(Xi2)[0])
-            ok = abs(Fn2 - Fn) <= TOL * abs(Fn) and abs(Xi2 - Xi) <= TOL * abs(Xi) and mac(Phi2[:, 0], Phi[:, 0]) >= 1 - 1e-9
-        except Exception:  # noqa: BLE001
-            ok, Fn2, Xi2 = False, None, None
+        r2 = analyse(ctx, dict(case, scaled_by=c), lay_out(c * Sy, layout), f, spec, method, judge=False)
+        ok = r2 is not None and abs(r2[0] - Fn) <= TOL * abs(Fn) and abs(r2[1] - Xi) <= TOL * abs(Xi) and mac(r2[2][:, 0], Phi[:, 0]) >= 1 - 1e-9
         if not ok:
-            ctx.fail("oracle", "%s: estimates change under Sy -> %g*Sy: Fn %r -> %r, Xi %r -> %r" % (method, c, Fn, Fn2, Xi, Xi2), case,
-                     key="C07:%s:scale" % method)
+            ctx.fail("oracle", "%s: estimates change under Sy -> %g*Sy: Fn %r -> %r, Xi %r -> %r" % (
+                method, c, Fn, r2 and r2[0], Xi, r2 and r2[1]), case, key="C07:%s:scale" % method)
+
+
+def oracle_sequence(ctx, seq):
+    """Histories on ONE ndarray object: the work array is refilled in place with the spectrum of another mode and
+    analysed again; every analysis is judged against the truth of the spectrum the array holds at that moment."""
+    specs, order, layout = seq["specs"], seq["order"], seq.get("layout", "C")
+    built = []
+    for sp in specs:
+        assert in_envelope(sp["fs"], sp["nxseg"], sp["fn"], sp["xi"], sp["DF2"]), sp
+        built.append(build_sy(sp["fs"], sp["nxseg"], sp["fn"], sp["xi"], np.array(sp["phi"], float), sp["eps_rel"], sp["gain"]))
+    assert len({b[1].shape for b in built}) == 1
+    for method in seq.get("methods", ("EFDD", "FSDD")):
+        work = lay_out(np.zeros_like(built[0][1]), layout)
+        for step, i in enumerate(order):
+            work[...] = built[i][1]  # refill the same object in place
+            case = dict(kind="sequence", step=step, order=list(order[: step + 1]), layout=layout, method=method, specs=specs, judged=i)
+            ctx.count(case, nontrivial=step > 0)
+            ctx.hist("oracle sequence step", step)
+            analyse(ctx, case, work, built[i][0], specs[i], method)
+
+
+FS_DECADES = (0.05, 0.2, 1.0, 100.0, 5000.0, 1e5)
+
+
+def oracle_fs_sweep(ctx, base, fss=FS_DECADES):
+    """Time-unit covariance: at fixed dimensionless fn/fs, xi, band and selection the estimates fn/fs and xi do not
+    depend on the sampling rate (1e-9 relative), and each is inside the envelope for every fs."""
+    for method in base.get("methods", ("EFDD", "FSDD")):
+        ref = None
+        for fs in fss:
+            spec = dict(base, kind="fs-sweep", fs=fs, fn=base["fn_r"] * fs, DF1=base["DF1_r"] * fs, DF2=base["DF2_r"] * fs, sel=base["sel_r"] * fs)
+            assert in_envelope(fs, spec["nxseg"], spec["fn"], spec["xi"], spec["DF2"]), spec
+            f, Sy, _, _ = build_sy(fs, spec["nxseg"], spec["fn"], spec["xi"], np.array(spec["phi"], float), spec["eps_rel"], spec["gain"])
+            case = dict(spec, method=method)
+            ctx.count(case, nontrivial=True)
+            ctx.hist("oracle log10 fs", int(np.floor(np.log10(fs))))
+            r = analyse(ctx, case, Sy, f, spec, method)
+            if r is None:
+                continue
+            if ref is None:
+                ref = (fs, r[0] / fs, r[1])
+            elif not (abs(r[0] / fs - ref[1]) <= TOL * abs(ref[1]) and abs(r[1] - ref[2]) <= TOL * abs(ref[2])):
+                ctx.fail("oracle", "%s: fn/fs and xi depend on the sampling rate: fs=%g gives fn/fs=%.12g, xi=%.12g; fs=%g gives fn/fs=%.12g, xi=%.12g "
+                         "(true %.6g, %.4g)" % (method, ref[0], ref[1], ref[2], fs, r[0] / fs, r[1], base["fn_r"], spec["xi"]), case,
+                         key="C07:%s:fs-covariance" % method)
+
+
+def fixed_histories(thorough):
+    """Deterministic sequences / sampling-rate sweeps present in both tiers."""
+    A = dict(kind="envelope", fs=50.0, nxseg=2048, fn=3.1, xi=0.02, phi=[1.0, -0.5, 0.25], eps_rel=1e-10, gain=1.0, DF2=1.0, DF1=0.124, sel=3.12, c=1.0)
+    B = dict(kind="envelope", fs=50.0, nxseg=2048, fn=2.95, xi=0.032, phi=[1.0, -0.5, 0.25], eps_rel=1e-9, gain=40.0, DF2=1.0, DF1=0.19, sel=2.9, c=1.0)
+    C = dict(kind="envelope", fs=50.0, nxseg=2048, fn=9.0, xi=0.045, phi=[-0.5, 0.5, 1.0], eps_rel=1e-11, gain=1e-3, DF2=4.0, DF1=0.8, sel=9.2, c=1.0)
+    seqs = [dict(specs=[A, B], order=[0, 1, 0, 1], layout="C"), dict(specs=[B, C], order=[0, 1, 0], layout="F")]
+    if thorough:
+        seqs += [dict(specs=[A, B, C], order=[0, 1, 2, 0, 2, 1, 1, 0], layout="view"), dict(specs=[C, A], order=[0, 1, 0, 1, 0], layout="C")]
+    sweeps = [dict(nxseg=1024, fn_r=0.0625, xi=0.04, phi=[1.0, 0.5], eps_rel=1e-10, gain=1.0, DF1_r=0.005, DF2_r=0.021, sel_r=0.063),
+              dict(nxseg=2000, fn_r=0.22, xi=0.02, phi=[0.5, -1.0, 0.25], eps_rel=1e-9, gain=1e3, DF1_r=0.0088, DF2_r=0.04, sel_r=0.221)]
+    if thorough:
+        sweeps += [dict(nxseg=4096, fn_r=0.1234, xi=0.05, phi=[1.0, 0.75, -0.5, 0.25], eps_rel=1e-12, gain=1e-4, DF1_r=0.012, DF2_r=0.1, sel_r=0.12),
+                   dict(nxseg=3000, fn_r=0.04, xi=0.035, phi=[-1.0, 0.5], eps_rel=1e-8, gain=1.0, DF1_r=0.0028, DF2_r=0.0115, sel_r=0.0405)]
+    return seqs, sweeps
 
 
 # ----------------------------------------------------------------------------------------------------------------------
@@ -289,16 +403,24 @@ def run_bell(ctx, rng):
         if near:
             ctx.not_judged += 1
             continue
+        layout = LAYOUTS[(k // 2) % 3]
+        Sy_in = lay_out(Sy, layout)
         for method in ("EFDD", "FSDD"):
             cs = dict(case, method=method, phi=[[z.real, z.imag] for z in np.asarray(phi, complex)],
-                      Sy_digest=float(np.abs(Sy).sum()))
+                      Sy_digest=float(np.abs(Sy).sum()), layout=layout)
             ctx.count(cs, nontrivial=hi > lo and cm > 0 and lim < 1)
             ctx.hist("bell", (method, "two-mode" if case["two"] else "rank-one", "cm%d" % cm, case["malformed"]))
+            phi_in = np.array(phi)
+            fr = Frozen(Sy=Sy_in, phi_FDD=phi_in)
             try:
-                bell, ms = fdd.SDOF_bellandMS(Sy, dt, case["sel"], np.asarray(phi), method=method, cm=cm, MAClim=lim, DF=case["DF"])
+                bell, ms = fdd.SDOF_bellandMS(Sy_in, dt, case["sel"], phi_in, method=method, cm=cm, MAClim=lim, DF=case["DF"])
                 got = np.asarray(bell, complex)
             except Exception as e:  # noqa: BLE001
                 got = type(e).__name__
+            if fr.changed():
+                ctx.fail("oracle", "fdd.SDOF_bellandMS(%s) modifies its input %s (memory layout %s)" % (method, "/".join(fr.changed()), layout), cs,
+                         key="C07:bell:mutates-input")
+                fr.restore()
             # (i) closed form of C07_bell_rank_one
             if case["rank_one"] is not None and not isinstance(got, str) and case["malformed"] is None and cm == 1:
                 a = np.array(case["rank_one"]["a"])
@@ -492,14 +614,22 @@ def run_classes(ctx, rng):
             if alg.result.Sy.shape != Sy.shape or not np.allclose(alg.result.freq, f, rtol=1e-12, atol=0):
                 ctx.fail("correspondence", "%s.run: spectral grid is not k*fs/nxseg, k=0..nxseg/2" % cls.__name__, case, key="C07:class:grid")
                 continue
-            alg.result.Sy = Sy.astype(complex)
+            layout = LAYOUTS[k % 3]
+            alg.result.Sy = lay_out(Sy.astype(complex), layout)
+            sel_in = [spec["sel"]]
+            fr = Frozen(Sy=alg.result.Sy, freq=alg.result.freq)
             try:
-                ss.mpe("a", sel_freq=[spec["sel"]], DF1=spec["DF1"], DF2=spec["DF2"])
+                ss.mpe("a", sel_freq=sel_in, DF1=spec["DF1"], DF2=spec["DF2"])
                 r = alg.result
-                Fn, Xi, Phi, PP = fdd.EFDD_mpe(Sy.astype(complex), f, 1.0 / fs, [spec["sel"]], "per", method=method, DF1=spec["DF1"], DF2=spec["DF2"])
-                same = (np.shape(r.Fn) == (1,) and np.shape(r.Xi) == (1,) and np.allclose(r.Fn, np.ravel(Fn), rtol=1e-12, atol=0)
-                        and np.allclose(r.Xi, np.ravel(Xi), rtol=1e-12, atol=0) and np.allclose(r.Phi, Phi, rtol=1e-12, atol=0)
-                        and np.allclose(r.forPlot[0][2], PP[0][2], rtol=1e-12, atol=0))
+                if fr.changed() or sel_in != [spec["sel"]]:
+                    ctx.fail("oracle", "%s.mpe modifies result.Sy / result.freq / sel_freq (memory layout %s)" % (cls.__name__, layout), case,
+                             key="C07:class:mutates-input")
+                    fr.restore()
+                Fn, Xi, Phi, PP = fdd.EFDD_mpe(lay_out(Sy.astype(complex), layout), f, 1.0 / fs, [spec["sel"]], "per", method=method,
+                                               DF1=spec["DF1"], DF2=spec["DF2"])
+                same = (np.shape(r.Fn) == (1,) and np.shape(r.Xi) == (1,) and np.allclose(r.Fn, np.ravel(Fn), rtol=TOL, atol=0)
+                        and np.allclose(r.Xi, np.ravel(Xi), rtol=TOL, atol=0) and np.allclose(r.Phi, Phi, rtol=TOL, atol=1e-12)
+                        and np.allclose(r.forPlot[0][2], PP[0][2], rtol=TOL, atol=0))
                 Fnc, Xic, m = float(r.Fn[0]), float(r.Xi[0]), mac(r.Phi[:, 0], phi)
                 bell = np.asarray(r.forPlot[0][2])
             except Exception as e:  # noqa: BLE001
@@ -517,12 +647,34 @@ def run_classes(ctx, rng):
             if not (m >= 0.999 and abs(Fnc - spec["fn"]) <= 0.025 * spec["fn"] and abs(Xic - spec["xi"]) <= 0.15 * spec["xi"]):
                 ctx.fail("oracle", "%s.mpe: Fn %.6g (true %.6g), Xi %.5g (true %.5g), MAC %.5f outside the envelope" % (
                     cls.__name__, Fnc, spec["fn"], Xic, spec["xi"], m), case, key="C07:class:envelope-%s" % method)
+            # history on the same objects: the stored spectral matrix is refilled in place with another mode, mpe again
+            fn2 = spec["fn"] * 1.12 if spec["fn"] * 1.12 <= 0.25 * fs else spec["fn"] / 1.12
+            xi2 = 0.07 - spec["xi"]
+            bw2 = 2 * xi2 * fn2
+            spec2 = dict(spec, fn=fn2, xi=xi2, phi=phi[::-1].tolist(), DF1=bw2, DF2=max(spec["DF2"], 4.2 * bw2), sel=fn2 + 0.2 * bw2)
+            if not in_envelope(fs, nxseg, fn2, xi2, spec2["DF2"]):
+                continue
+            _, Sy2, _, _ = build_sy(fs, nxseg, fn2, xi2, phi[::-1], spec["eps_rel"], spec["gain"] * 3.0)
+            alg.result.Sy[...] = Sy2
+            case2 = dict(spec2, kind="class-refill", cls=cls.__name__, first=spec)
+            ctx.count(case2, nontrivial=True)
+            try:
+                ss.mpe("a", sel_freq=[spec2["sel"]], DF1=spec2["DF1"], DF2=spec2["DF2"])
+                Fnc, Xic, m = float(alg.result.Fn[0]), float(alg.result.Xi[0]), mac(alg.result.Phi[:, 0], phi[::-1])
+            except Exception as e:  # noqa: BLE001
+                ctx.fail("oracle", "%s.mpe raised %s after result.Sy was refilled in place with another mode's spectrum" % (cls.__name__, type(e).__name__),
+                         case2, key="C07:class:refill-raises")
+                continue
+            if not (m >= 0.999 and abs(Fnc - fn2) <= 0.025 * fn2 and abs(Xic - xi2) <= 0.15 * xi2):
+                ctx.fail("oracle", "%s.mpe after an in-place refill of result.Sy: Fn %.6g (true %.6g), Xi %.5g (true %.5g), MAC %.5f" % (
+                    cls.__name__, Fnc, fn2, Xic, xi2, m), case2, key="C07:class:refill-%s" % method)
 
 
 # ----------------------------------------------------------------------------------------------------------------------
 def run(ctx):
     rng = ctx.np_rng
-    ctx.extra["rule"] = ("oracle: points of the property's envelope (fs, nxseg, fn, xi, shape, floor, gain, DF2, scale c) x {EFDD, FSDD}; "
+    ctx.extra["rule"] = ("oracle: points of the property's envelope (fs over 0.05..1e5, nxseg, fn, xi, shape, floor, gain, DF2, scale c, memory layout C/F/view) "
+                         "x {EFDD, FSDD}, inputs bit-equal after every call; histories on one ndarray refilled in place; fs sweeps at fixed fn/fs, xi; "
                          "bell: small rank-one / two-mode Hermitian spectra x method x cm x MAClim (+ malformed bands); decay: small analytic "
                          "spectra x sppk x npmax x per/cor (+ too few extrema, all-zero bell); non-trivial = non-empty band with an active "
                          "bell / a fit that is carried out; distinct by hash of the case")
@@ -537,7 +689,18 @@ def run(ctx):
     # ---- corpus first: failing inputs of the repaired sqrt(sigma) bell
     for path in sorted(glob.glob(os.path.join(VERIF, "corpus", "C07", "*.json"))):
         spec = json.load(open(path))
-        oracle_case(ctx, spec, methods=tuple(spec.get("methods", ("EFDD", "FSDD"))))
+        if spec["kind"] == "sequence":
+            oracle_sequence(ctx, spec)
+        elif spec["kind"] == "fs-sweep":
+            oracle_fs_sweep(ctx, spec, tuple(spec.get("fss", FS_DECADES)))
+        else:
+            oracle_case(ctx, spec, methods=tuple(spec.get("methods", ("EFDD", "FSDD"))))
+    # ---- histories on one array object, sampling rates over many decades (both tiers)
+    seqs, sweeps = fixed_histories(not ctx.quick())
+    for q in seqs:
+        oracle_sequence(ctx, q)
+    for b in sweeps:
+        oracle_fs_sweep(ctx, b)
     # ---- deterministic corners of the envelope (both tiers)
     for spec in corner_points(not ctx.quick()):
         ctx.hist("oracle corner", (spec["nxseg"], spec["end"], spec["xi"]))
